@@ -100,6 +100,60 @@ Section Generic.
       destruct comb; [reflexivity | exact Hf].
   Qed.
 
+  (* ---- the address claim (PGN 60928): the message carries the identity built from its own fields, and the source
+          map is updated (IsoName.__init__, or the stored identity when the NAME is unchanged) ---- *)
+  Definition claim_result (st : state) (cl : call) (r : result (option dmsg)) : state * result (option DecoderCtl.msg) :=
+    match r with
+    | Ok (Some dm) =>
+        match claim_update (srcmap st) (c_src cl) (le_int (c_data cl)) dm with
+        | Ok (sm', n) =>
+            ({| reasm := reasm st; srcmap := sm' |},
+             if ascii (d_id dm)
+             then Ok (Some {| DecoderCtl.m_pgn := d_pgn dm; DecoderCtl.m_id := d_id dm; m_src := c_src cl;
+                              m_dst := c_dst cl; m_iso := Some n; m_body := d_body dm |})
+             else Unmodelled)
+        | Err e => (st, Err e)
+        | Unmodelled => (st, Unmodelled)
+        end
+    | Ok None => (st, Ok None)
+    | Err e => (st, Err e)
+    | Unmodelled => (st, Unmodelled)
+    end.
+
+  Lemma ctl_claim (fast : Z -> result (option bool)) st cl :
+    c_pgn cl = CLAIM -> fast CLAIM = Ok (Some false) ->
+    (forall dm, decode CLAIM (le_int (c_data cl)) = Ok (Some dm) -> d_pgn dm = CLAIM) ->
+    ctl_step decode fast cfg0 st cl = claim_result st cl (decode CLAIM (le_int (c_data cl))).
+  Proof.
+    intros Hp Hf Hd. unfold ctl_step, prefilter. rewrite Hp. cbn [Z.eqb CLAIM Pos.eqb]. rewrite Hf.
+    unfold call_decode, decode_and_claim, claim_result.
+    destruct (decode CLAIM (le_int (c_data cl))) as [[dm|]|e|] eqn:D; try (destruct st; reflexivity).
+    rewrite (Hd dm eq_refl). cbn [Z.eqb CLAIM Pos.eqb].
+    destruct (claim_update (srcmap st) (c_src cl) (le_int (c_data cl)) dm) as [[sm' n]| |]; cbn [bind fst snd];
+      try (destruct st; reflexivity).
+    destruct (ascii (d_id dm)); cbn [negb]; [|reflexivity].
+    unfold id_filter. cbn [DecoderCtl.m_pgn DecoderCtl.m_id claim_filter cfg0].
+    rewrite andb_false_r. unfold id_dropped, has_inc.
+    cbn [ex_ids inc_nums inc_ids cfg0 mem_s existsb is_nil negb orb andb]. reflexivity.
+  Qed.
+
+  Theorem e2e_claim_of_parse st i prio src dst data comb :
+    parse_with ts_ok (e_fmt i) (e_data i) = Ok (Some (CLAIM, prio, src, dst, rev data, comb)) ->
+    (comb = true \/ is_fast CLAIM = Ok (Some false)) ->
+    (forall dm, decode CLAIM (le_int data) = Ok (Some dm) -> d_pgn dm = CLAIM) ->
+    e2e_step_gen decode is_fast ts_ok cfg0 st i
+    = let sr := claim_result st {| c_pgn := CLAIM; c_src := src; c_dst := dst; c_data := data; c_win := e_win i |}
+                             (decode CLAIM (le_int data)) in
+      (fst sr, with_prio prio (snd sr)).
+  Proof.
+    intros P Hf Hd. rewrite (e2e_of_parse cfg0 st i CLAIM prio src dst data comb P). cbv zeta.
+    rewrite (ctl_claim (fast_of is_fast comb) st
+               {| c_pgn := CLAIM; c_src := src; c_dst := dst; c_data := data; c_win := e_win i |}); try assumption.
+    - reflexivity.
+    - reflexivity.
+    - unfold fast_of. destruct Hf as [-> | Hf]; [reflexivity|]. destruct comb; [reflexivity | exact Hf].
+  Qed.
+
   (* END TO END, all five entry points (the renderings are those of C07_frontends): the same CAN frame of a
      single-frame PGN, written in any of the five input grammars, comes back as the same message *)
   Theorem e2e_frontends st id data win :
@@ -237,6 +291,21 @@ Section Tables.
     - rewrite Pg in Fd. rewrite Fd, Sp. reflexivity.
   Qed.
 
+  (* a PGN without dispatcher: decode_pgn_<PGN> is the function of the bound definition, whatever the payload
+     (this includes the single definitions that carry match fields, which are outside C08: nothing to select) *)
+  Theorem tbl_decode_undispatched Ls LBs g d p :
+    group_ok code_disp code_ids g = true -> is_dispatched g = false ->
+    In d (bound_defs g) -> Defn.d_pgn d = group_pgn g ->
+    (exists cd, find_fname (fname_of g d) code_dec = Some cd /\
+                forall q, run_ddef L LB LI q cd = spec_decode Ls LBs q d) ->
+    tbl_decode code_dec code_disp L LB LI (group_pgn g) p = spec_dmsg Ls LBs p d.
+  Proof.
+    unfold group_ok, tbl_decode. intros H D B Pg (cd & Fd & Sp).
+    apply andb_true_iff in H. destruct H as [_ H]. rewrite D in H.
+    destruct (find_disp code_disp (group_pgn g)); [discriminate|].
+    unfold fname_of in Fd. rewrite D, Pg in Fd. rewrite Fd, Sp. reflexivity.
+  Qed.
+
   (* a dispatcher that finds no definition returns None *)
   Theorem tbl_decode_none g p :
     group_ok code_disp code_ids g = true -> is_dispatched g = true -> spec_select g p = None ->
@@ -279,6 +348,26 @@ Section Composition.
   Variable LI : ilookups.
   Variable ts_ok : Z -> list Z -> bool.
 
+  (* core: the decode function found for the PGN is the specification of definition d on this payload *)
+  Lemma e2e_single_frame_core Ls LBs d st i pgn prio src dst data comb :
+    tbl_decode code_dec code_disp L LB LI pgn (le_int data) = spec_dmsg Ls LBs (le_int data) d ->
+    Defn.d_pgn d = pgn -> ascii (bytes_of_str (Defn.d_id d)) = true ->
+    parse_with ts_ok (e_fmt i) (e_data i) = Ok (Some (pgn, prio, src, dst, rev data, comb)) ->
+    pgn <> CLAIM ->
+    (comb = true \/ tbl_is_fast code_fast pgn = Ok (Some false)) ->
+    (forall n, zlookup src (srcmap st) = Some n -> mfr_modelled n = true) ->
+    e2e_step code_dec code_disp code_fast L LB LI ts_ok cfg0 st i
+    = (st, e2e_expected Ls LBs d (le_int data) src dst prio (zlookup src (srcmap st))).
+  Proof.
+    intros T Pg A P Hp Hf Hi. unfold e2e_step.
+    rewrite (e2e_single_of_parse _ _ ts_ok st i pgn prio src dst data comb P Hp Hi Hf).
+    - rewrite T. rewrite lift_spec by exact A. reflexivity.
+    - intros dm. rewrite T. unfold spec_dmsg.
+      destruct (spec_decode Ls LBs (le_int data) d) as [m| |] eqn:E; cbn [bind]; try discriminate.
+      intros X. inversion X. cbn [to_dmsg d_pgn].
+      destruct (spec_decode_head _ _ _ _ _ E) as [E1 _]. rewrite E1, Pg. exact Hp.
+  Qed.
+
   (* END TO END on given tables: hypotheses are the two table obligations for the group of the PGN *)
   Theorem e2e_single_frame_tables Ls LBs g d st i pgn prio src dst data comb :
     group_ok code_disp code_ids g = true -> in_scope g = true ->
@@ -293,15 +382,27 @@ Section Composition.
     e2e_step code_dec code_disp code_fast L LB LI ts_ok cfg0 st i
     = (st, e2e_expected Ls LBs d (le_int data) src dst prio (zlookup src (srcmap st))).
   Proof.
-    intros G Sc B Pg A C P Ep Hp Hf Hi S. unfold e2e_step.
-    assert (T : tbl_decode code_dec code_disp L LB LI pgn (le_int data) = spec_dmsg Ls LBs (le_int data) d).
-    { rewrite Ep. apply (tbl_decode_is_spec code_dec code_disp code_ids L LB LI Ls LBs g d); assumption. }
-    rewrite (e2e_single_of_parse _ _ ts_ok st i pgn prio src dst data comb P Hp Hi Hf).
-    - rewrite T. rewrite lift_spec by exact A. reflexivity.
-    - intros dm. rewrite T. unfold spec_dmsg.
-      destruct (spec_decode Ls LBs (le_int data) d) as [m| |] eqn:E; cbn [bind]; try discriminate.
-      intros X. inversion X. cbn [to_dmsg d_pgn].
-      destruct (spec_decode_head _ _ _ _ _ E) as [E1 _]. rewrite E1, Pg, <- Ep. exact Hp.
+    intros G Sc B Pg A C P Ep Hp Hf Hi S.
+    apply (e2e_single_frame_core Ls LBs d st i pgn prio src dst data comb); try assumption; [|congruence].
+    rewrite Ep. apply (tbl_decode_is_spec code_dec code_disp code_ids L LB LI Ls LBs g d); assumption.
+  Qed.
+
+  (* the same for a PGN without dispatcher: the bound definition, for every payload *)
+  Theorem e2e_single_frame_tables_undispatched Ls LBs g d st i pgn prio src dst data comb :
+    group_ok code_disp code_ids g = true -> is_dispatched g = false ->
+    In d (bound_defs g) -> Defn.d_pgn d = group_pgn g -> ascii (bytes_of_str (Defn.d_id d)) = true ->
+    (exists cd, find_fname (fname_of g d) code_dec = Some cd /\
+                forall q, run_ddef L LB LI q cd = spec_decode Ls LBs q d) ->
+    parse_with ts_ok (e_fmt i) (e_data i) = Ok (Some (pgn, prio, src, dst, rev data, comb)) ->
+    pgn = group_pgn g -> pgn <> CLAIM ->
+    (comb = true \/ tbl_is_fast code_fast pgn = Ok (Some false)) ->
+    (forall n, zlookup src (srcmap st) = Some n -> mfr_modelled n = true) ->
+    e2e_step code_dec code_disp code_fast L LB LI ts_ok cfg0 st i
+    = (st, e2e_expected Ls LBs d (le_int data) src dst prio (zlookup src (srcmap st))).
+  Proof.
+    intros G D B Pg A C P Ep Hp Hf Hi.
+    apply (e2e_single_frame_core Ls LBs d st i pgn prio src dst data comb); try assumption; [|congruence].
+    rewrite Ep. apply (tbl_decode_undispatched code_dec code_disp code_ids L LB LI Ls LBs g d); assumption.
   Qed.
 
   (* a dispatcher PGN whose payload matches no definition and has no fallback: nothing is returned *)
@@ -320,5 +421,29 @@ Section Composition.
     rewrite (e2e_single_of_parse _ _ ts_ok st i pgn prio src dst data comb P Hp Hi Hf).
     - rewrite T. reflexivity.
     - intros dm. rewrite T. discriminate.
+  Qed.
+  (* the address claim on given tables: PGN 60928 has no dispatcher; its bound definition d decodes the NAME, the
+     identity is read from the decoded fields, the source map is updated *)
+  Theorem e2e_claim_tables Ls LBs g d st i prio src dst data comb :
+    group_ok code_disp code_ids g = true -> is_dispatched g = false -> group_pgn g = CLAIM ->
+    In d (bound_defs g) -> Defn.d_pgn d = group_pgn g ->
+    (exists cd, find_fname (fname_of g d) code_dec = Some cd /\
+                forall q, run_ddef L LB LI q cd = spec_decode Ls LBs q d) ->
+    parse_with ts_ok (e_fmt i) (e_data i) = Ok (Some (CLAIM, prio, src, dst, rev data, comb)) ->
+    (comb = true \/ tbl_is_fast code_fast CLAIM = Ok (Some false)) ->
+    e2e_step code_dec code_disp code_fast L LB LI ts_ok cfg0 st i
+    = let sr := claim_result st {| c_pgn := CLAIM; c_src := src; c_dst := dst; c_data := data; c_win := e_win i |}
+                             (spec_dmsg Ls LBs (le_int data) d) in
+      (fst sr, with_prio prio (snd sr)).
+  Proof.
+    intros G D Eg B Pg C P Hf. unfold e2e_step.
+    assert (T : tbl_decode code_dec code_disp L LB LI CLAIM (le_int data) = spec_dmsg Ls LBs (le_int data) d).
+    { rewrite <- Eg. apply (tbl_decode_undispatched code_dec code_disp code_ids L LB LI Ls LBs g d); assumption. }
+    rewrite (e2e_claim_of_parse _ _ ts_ok st i prio src dst data comb P Hf).
+    - rewrite T. reflexivity.
+    - intros dm. rewrite T. unfold spec_dmsg.
+      destruct (spec_decode Ls LBs (le_int data) d) as [m| |] eqn:E; cbn [bind]; try discriminate.
+      intros X. inversion X. cbn [to_dmsg d_pgn].
+      destruct (spec_decode_head _ _ _ _ _ E) as [E1 _]. rewrite E1, Pg. exact Eg.
   Qed.
 End Composition.
